@@ -110,7 +110,7 @@ impl MockBe {
     pub(crate) fn mutations(&self) -> u8 {
         self.n_write.load(SeqCst) + self.n_remove.load(SeqCst) + self.n_create.load(SeqCst)
     }
-    fn err() -> Box<RusticError> { RusticError::new(ErrorKind::Backend, "injected fault") }
+    fn err() -> Box<RusticError> { RusticError::new(ErrorKind::Backend, "injected") }
 }
 impl ReadBackend for MockBe {
     fn location(&self) -> String { String::new() }
@@ -177,13 +177,21 @@ impl WriteBackend for MockBe {
 use crate::crypto::CryptoKey;
 
 #[derive(Clone, Copy, Debug)]
-pub(crate) struct ModelKey;
+pub(crate) struct ModelKeyG<const TAG: bool, const NONCE: bool>;
+/// default model key: symbolic nonce, fixed tag bytes (format-checking AEAD).  A content-sensitive tag (TAG = true)
+/// makes `decrypt` succeed/fail on a condition CBMC cannot simplify; every later access then goes through
+/// merged pointers and the SAT instance exceeds 30 GB (measured) - it is used only in the small tamper harnesses.
+pub(crate) type ModelKey = ModelKeyG<false, true>;
+pub(crate) const ModelKey: ModelKey = ModelKeyG::<false, true>;
+pub(crate) type MacKey = ModelKeyG<true, true>;
 
-fn model_tag(nonce0: u8, ct: &[u8]) -> u8 {
-    let mut t = nonce0 ^ 0x3c ^ (ct.len() as u8).wrapping_mul(17);
+/// constant trip count (8 >= every harness payload incl. compression framing); reads only, no pushes:
+/// a `while i < ct.len()` loop here costs 4x the symex steps and 15x the SAT memory (measured)
+fn model_tag(nonce0: u8, buf: &[u8], start: usize, n: usize) -> u8 {
+    let mut t = nonce0 ^ 0x3c ^ (n as u8).wrapping_mul(17);
     let mut i = 0;
-    while i < ct.len() {
-        t = t.wrapping_add(ct[i]).rotate_left(1) ^ (i as u8);
+    while i < 8 {
+        if i < n { t = t.wrapping_add(buf[start + i]).rotate_left(1) ^ (i as u8); }
         i += 1;
     }
     t
@@ -191,21 +199,21 @@ fn model_tag(nonce0: u8, ct: &[u8]) -> u8 {
 
 pub(crate) const MODEL_OVERHEAD: usize = 32;
 
-impl CryptoKey for ModelKey {
+impl<const TAG: bool, const NONCE: bool> CryptoKey for ModelKeyG<TAG, NONCE> {
     fn decrypt_data(&self, data: &[u8]) -> RusticResult<Vec<u8>> {
         if data.len() < MODEL_OVERHEAD {
-            return Err(RusticError::new(ErrorKind::Cryptography, "model: too short"));
+            return Err(RusticError::new(ErrorKind::Cryptography, "m:short"));
         }
         let n = data.len() - MODEL_OVERHEAD;
         let mut i = 1;
         while i < 16 {
             if data[i] != 0 || data[16 + n + i] != 0xA5 {
-                return Err(RusticError::new(ErrorKind::Cryptography, "model: mac"));
+                return Err(RusticError::new(ErrorKind::Cryptography, "m:mac"));
             }
             i += 1;
         }
-        if data[16 + n] != model_tag(data[0], &data[16..16 + n]) {
-            return Err(RusticError::new(ErrorKind::Cryptography, "model: mac"));
+        if data[16 + n] != if TAG { model_tag(data[0], data, 16, n) } else { 0xA5 } {
+            return Err(RusticError::new(ErrorKind::Cryptography, "m:mac"));
         }
         let mut out = Vec::with_capacity(8);
         let mut j = 0;
@@ -217,13 +225,13 @@ impl CryptoKey for ModelKey {
     }
     fn encrypt_data(&self, data: &[u8]) -> RusticResult<Vec<u8>> {
         let mut out = Vec::with_capacity(48);
-        let nonce0: u8 = kani::any();
+        let nonce0: u8 = if NONCE { kani::any() } else { 0 };
         out.push(nonce0);
         let mut i = 1;
         while i < 16 { out.push(0); i += 1; }
         let mut j = 0;
         while j < data.len() { out.push(data[j] ^ 0x5a); j += 1; }
-        let t = model_tag(nonce0, &out[16..]);
+        let t = if TAG { model_tag(nonce0, &out, 16, data.len()) } else { 0xA5 };
         out.push(t);
         let mut k = 1;
         while k < 16 { out.push(0xA5); k += 1; }
@@ -238,7 +246,7 @@ pub(crate) fn is_model_ciphertext_of(enc: &[u8], p: &[u8]) -> bool {
     while j < p.len() { if enc[16 + j] != p[j] ^ 0x5a { return false; } j += 1; }
     let mut i = 1;
     while i < 16 { if enc[i] != 0 || enc[16 + p.len() + i] != 0xA5 { return false; } i += 1; }
-    enc[16 + p.len()] == model_tag(enc[0], &enc[16..16 + p.len()])
+    enc[16 + p.len()] == 0xA5
 }
 
 // ---------------------------------------------------------------------------
@@ -291,8 +299,25 @@ pub(crate) fn stub_hash(data: &[u8]) -> crate::id::Id {
     crate::id::Id::new(r)
 }
 
+/// a stateless backend: reads fail, writes are counted only
+#[derive(Debug)]
+pub(crate) struct NullBe { pub n_write: AtomicU8 }
+impl NullBe { pub(crate) fn new() -> Self { Self { n_write: AtomicU8::new(0) } } }
+impl ReadBackend for NullBe {
+    fn location(&self) -> String { String::new() }
+    fn list_with_size(&self, _tpe: FileType) -> RusticResult<Vec<(crate::id::Id, u32)>> { Ok(Vec::new()) }
+    fn read_full(&self, _tpe: FileType, _id: &crate::id::Id) -> RusticResult<Bytes> { Ok(Bytes::new()) }
+    fn read_partial(&self, _tpe: FileType, _id: &crate::id::Id, _c: bool, _o: u32, _l: u32) -> RusticResult<Bytes> { Ok(Bytes::new()) }
+    fn warmup_path(&self, _tpe: FileType, _id: &crate::id::Id) -> String { String::new() }
+}
+impl WriteBackend for NullBe {
+    fn create(&self) -> RusticResult<()> { Ok(()) }
+    fn write_bytes(&self, _tpe: FileType, _id: &crate::id::Id, _c: bool, content: BytesList) -> RusticResult<()> { self.n_write.fetch_add(1, SeqCst); std::mem::forget(content); Ok(()) }
+    fn remove(&self, _tpe: FileType, _id: &crate::id::Id, _c: bool) -> RusticResult<()> { Ok(()) }
+}
+
 /// a write-recording sink: remembers the first (tpe, id, bytes) written (up to CAP bytes)
-pub(crate) const SINK_CAP: usize = 64;
+pub(crate) const SINK_CAP: usize = 48;
 #[derive(Debug)]
 pub(crate) struct RecBe {
     pub n_write: AtomicU8,
@@ -329,7 +354,7 @@ impl ReadBackend for RecBe {
     fn read_full(&self, _tpe: FileType, _id: &crate::id::Id) -> RusticResult<Bytes> { Ok(Bytes::from_static(self.serve)) }
     fn read_partial(&self, _tpe: FileType, _id: &crate::id::Id, _c: bool, offset: u32, length: u32) -> RusticResult<Bytes> {
         let (o, l) = (offset as usize, length as usize);
-        if o > self.serve.len() || l > self.serve.len() - o { return Err(RusticError::new(ErrorKind::Backend, "read outside file")); }
+        if o > self.serve.len() || l > self.serve.len() - o { return Err(RusticError::new(ErrorKind::Backend, "outside")); }
         Ok(Bytes::from_static(&self.serve[o..o + l]))
     }
     fn warmup_path(&self, _tpe: FileType, _id: &crate::id::Id) -> String { String::new() }
